@@ -62,7 +62,7 @@ def strategy(tier):
     enc_item = specs.leaf_spec(["bytes", "challenge", "secure"], 0, required=False)
     enc_list = enc_item.map(lambda it: {"kind": "list", "req": False, "validator": None, "opts": {}, "item": it})
     enc_dict = st.tuples(specs.leaf_spec(["str"], 0, required=False).map(lambda k: dict(k, opts={}, validator=None)), enc_item).map(
-        lambda kv: {"kind": "dict", "req": False, "validator": None, "opts": {}, "key": kv[0], "value": kv[1]})
+        lambda kv: {"kind": "dict", "req": False, "validator": None, "opts": {}, "keyf": kv[0], "valuef": kv[1]})
     both = st.fixed_dictionaries({
         "kind": st.just("str"), "req": st.booleans(), "validator": st.none(),
         "opts": st.fixed_dictionaries({"transform_case": st.sampled_from(["lower", "upper"]),
@@ -149,7 +149,7 @@ def _disk_ok(spec, value):
             return True
         return all(_disk_ok(item, v) for v in value)
     if kind == "dict":
-        kf, vf = spec.get("key"), spec.get("value")
+        kf, vf = spec.get("keyf"), spec.get("valuef")
         return all((kf is None or _disk_ok(kf, k)) and (vf is None or _disk_ok(vf, v)) for k, v in value.items())
     return True
 
@@ -240,16 +240,16 @@ def run_case(case, R):
             except Exception as exc:
                 R.fail("disk", kind + ":raises", "%s: to_python(to_basic(%r)) raised %r" % (kind, got, exc))
             else:
-                if kind in ("list", "dict") and (spec.get("item") or spec.get("value") or spec.get("key")):
+                if kind in ("list", "dict") and (spec.get("item") or spec.get("valuef") or spec.get("keyf")):
                     R.label("class:typed-container")
-                    sub = spec.get("item") or spec.get("value")
+                    sub = spec.get("item") or spec.get("valuef")
                     if sub and sub["kind"] in ("bytes", "challenge", "secure") and got:
                         R.nontrivial = True
                         R.label("class:encoded-items")
                 same = _impl_eq(got, back) and _disk_exact(got, back)
                 if not same and kind in ("list", "any") and isinstance(got, tuple) and isinstance(back, list):
                     same = _impl_eq(list(got), back)  # an untyped list keeps a tuple in memory; disk has lists only
-                R.check(same, "disk", kind + (":" + (spec.get("item") or spec.get("value") or {}).get("kind", "") if kind in ("list", "dict") else ""),
+                R.check(same, "disk", kind + (":" + (spec.get("item") or spec.get("valuef") or {}).get("kind", "") if kind in ("list", "dict") else ""),
                         lambda: "%s%r: %r -> on disk %r -> back %r" % (kind, spec.get("opts"), got, basic, back))
                 # the value read back is itself accepted and normal
                 try:
